@@ -1002,6 +1002,9 @@ fn mod_infos(sc: &Scenario) -> Option<Vec<ModInfo>> {
         infos.push(ModInfo { rel: f.path.rel(), top, tests, main: mains.first().copied(), simple });
     }
     for o in &sc.ops {
+        if o.script.is_some() {
+            continue; // the script IS one of the module files: same markers
+        }
         for t in &o.body {
             match t {
                 TAct::A(Act::Print(m)) | TAct::A(Act::Show(m, _)) | TAct::A(Act::Try(_, m)) => note(*m),
